@@ -6,7 +6,10 @@ standing guards; any exception or non-finite weight / activation / match value /
 cluster centre is a violation.  The hyper-parameters are also given in every
 representation validate_params accepts (integer / narrow / float32 array dtypes,
 strided, read-only and broadcast arrays, NumPy scalars).  Whole histories are also run under the caller's strict
-numeric policies (np.errstate(divide='raise', invalid='raise'); RuntimeWarning promoted to an error).  Tie: the Lean checked kernels report `zerodiv`
+numeric policies (np.errstate(divide='raise', invalid='raise'); RuntimeWarning promoted to an error).  Fitted FALCON /
+TD_FALCON / FusionART / ARTMAP models are queried through every prediction entry point with the optional arguments at
+their boundary values (get_probabilistic_action offset x optimality x action_space, get_action, get_rewards,
+predict(skip_channels), predict_regression(target_channels)).  Tie: the Lean checked kernels report `zerodiv`
 exactly where the implementation raises (kern ops, shared with C03)."""
 from __future__ import annotations
 
@@ -21,7 +24,12 @@ RULE = ("cases = (family, hyper-parameters incl. extreme-but-legal values, strea
         "partition); plus (elementary class, one representation of its hyper-parameters that validate_params accepts: "
         "dtype x magnitude x memory layout of array hyper-parameters, or a scalar type; bare or inside a host; stream "
         "with repeated rows; batching); plus (elementary class, bare or inside a host, numeric policy of the calling process, "
-        "history fit / partial_fit batches -> rows placed on the reported category centres + repeated rows -> predict)")
+        "history fit / partial_fit batches -> rows placed on the reported category centres + repeated rows -> predict); plus "
+        "(FALCON / TD_FALCON, reward stream as built / strictly positive / constant, history fit | fit+partial_fit | partial_fit "
+        "batches (TD: one-row batches with single_sample_reward), then per trained / unseen state x default / explicit action "
+        "space: get_actions_and_rewards, get_action(optimality), get_probabilistic_action(offset in {0, 1e-6, 1e-4, 0.1, 1} x "
+        "optimality), get_rewards); plus (FusionART with 2-4 channels: predict(skip_channels) / predict_regression(target_channels) "
+        "for first / last / negative / several channels; ARTMAP.predict_regression / predict_ab)")
 
 
 def finite_weights(est) -> bool:
@@ -182,6 +190,7 @@ def run(ctx):
     several_instances(ctx)
     param_representations(ctx)
     strict_numeric_policy(ctx)
+    prediction_arguments(ctx)
 
 
 def _bounds_owner(est):
@@ -892,3 +901,278 @@ def strict_numeric_policy(ctx):
         if i % 60 == 0:
             cov.sample({"numeric_policy": policy, "host": host, "cls": cls, "history": "fit" if parts is None else f"partial_fit {parts}",
                         "rows_on_reported_centres": info["on_centre"]})
+
+
+# ---------------------------------------------------------------- optional arguments of the prediction entry points
+# "Can be ... predicted without an exception" is a statement about the estimators' prediction entry points, and those
+# have optional arguments the other sections leave at their defaults (or never call: FALCON / TD_FALCON have no `predict`;
+# their prediction entry points are get_action / get_probabilistic_action / get_rewards).  Here a FITTED estimator - fit,
+# fit then partial_fit, or partial_fit batches (TD_FALCON: also one-row batches with `single_sample_reward`) - is queried
+# with every optional argument at its boundary values:
+#   get_probabilistic_action(state, action_space, offset, optimality): offset 0.0 (cap everything: uniform exploration),
+#       1e-6, 1e-4, 0.1 (default), 1.0 (no cap) x optimality max / min x action_space default (None) / the trained
+#       actions / one action / unseen actions / an action listed twice x a trained / an unseen state;
+#   get_action(state, action_space, optimality), get_actions_and_rewards(state, action_space), get_rewards(states, actions);
+#   FusionART.predict(X, skip_channels) and predict_regression(X, target_channels): first / last / negative indices,
+#       several target channels; ARTMAP.predict_regression / predict_ab.
+# Oracle: no exception; every returned action / reward / regression value finite; the probability vector the sampling
+# entry point hands to NumPy's sampler finite (observed by wrapping np.random.choice for the duration of the query).
+
+PROB_OFFSETS = [0.1, 1.0, 1e-4, 1e-6, 0.0]      # the default first: a failure that does not depend on the offset is reported with the default
+OPTIMALITIES = ["max", "min"]
+
+
+def _sampled_query(seed, log):
+    """one query of a sampling entry point: the global NumPy generator is seeded for it (and put back afterwards, so the
+    rest of the check is not disturbed); every probability vector handed to np.random.choice is appended to `log`"""
+    import contextlib
+
+    @contextlib.contextmanager
+    def cm():
+        state = np.random.get_state()
+        orig = np.random.choice
+
+        def choice(a, size=None, replace=True, p=None):
+            if p is not None:
+                log.append(np.array(p, dtype=float))
+            return orig(a, size=size, replace=replace, p=p)
+        np.random.choice = choice
+        np.random.seed(seed)
+        try:
+            yield
+        finally:
+            np.random.choice = orig
+            np.random.set_state(state)
+    return cm()
+
+
+def _all_finite(out) -> bool:
+    outs = out if isinstance(out, (list, tuple)) else [out]
+    return all(np.all(np.isfinite(np.asarray(o, dtype=float))) for o in outs)
+
+
+def prediction_arguments(ctx):
+    """fitted FALCON / TD_FALCON / FusionART / ARTMAP answer every legal query of their prediction entry points, with the
+    optional arguments at their boundary values, without an exception and with finite results (see the comment above)"""
+    cov = ctx.cov
+    fq = families.quiet
+    zero_reported = set()
+    for i in range(ctx.scale(40, 600)):
+        r = gen.rng_for(ctx.seed, "C04-predargs", i)
+        name = ("FALCON", "TD_FALCON")[i % 2]
+        fam, rows = families.build(r, name, r.randint(2, 12))
+        S, A, R = (np.array(rows.arrs[k], dtype=float) for k in "SAR")
+        n, ds, da = len(S), S.shape[1] // 2, A.shape[1] // 2
+        rkind = r.choice(["as-built", "positive", "positive", "constant"])
+        if rkind == "positive":                      # every reward >= 1/4 (still on the dyadic grid)
+            R = gen.cc(0.25 + 0.75 * R[:, :1])
+        elif rkind == "constant":                    # the same reward everywhere (0: nothing rewarded yet; 1: everything)
+            R = gen.cc(np.full((n, 1), r.choice([0.0, 0.5, 1.0])))
+        boundary = r.random() < 0.25
+        if boundary:
+            extreme(r, fam)
+        calls = []
+        desc = dict(fam.describe(), S=S.tolist(), A=A.tolist(), R=R.tolist(), training_calls=calls)
+        try:
+            est = fam.make()
+        except AssertionError:
+            cov.hit(f"rejected-by-validate_params:{name}")
+            continue
+        # ---- training history
+        plan = r.choice(["fit", "fit+partial_fit", "partial_fit-batches"]) if name == "FALCON" else "partial_fit-batches"
+        stage = "fit"
+        try:
+            with fq(), np.errstate(all="ignore"):
+                if plan.startswith("fit"):
+                    calls.append("fit(S, A, R)")
+                    est.fit(S, A, R)
+                    if plan == "fit+partial_fit":
+                        stage = "partial_fit"
+                        k = r.randint(1, n)
+                        calls.append(f"partial_fit(S[:{k}], A[:{k}], R[:{k}])")
+                        est.partial_fit(S[:k], A[:k], R[:k])
+                else:
+                    stage = "partial_fit"
+                    j = 0
+                    for p in gen.compositions(r, n):
+                        sl = f"[{j}:{j + p}]"
+                        if name == "TD_FALCON" and p == 1 and r.random() < 0.6:
+                            ssr = r.choice([0.0, 1.0, 0.5])
+                            calls.append(f"partial_fit(S{sl}, A{sl}, R{sl}, single_sample_reward={ssr})")
+                            est.partial_fit(S[j:j + p], A[j:j + p], R[j:j + p], single_sample_reward=ssr)
+                            cov.hit(f"predargs:single_sample_reward={ssr}")
+                        else:
+                            calls.append(f"partial_fit(S{sl}, A{sl}, R{sl})")
+                            est.partial_fit(S[j:j + p], A[j:j + p], R[j:j + p])
+                        j += p
+            if not finite_weights(est):
+                ctx.issue("violation", f"{name}:non-finite-weight", f"NaN/inf in learned weights after {stage}", desc)
+                continue
+        except Exception as e:
+            ctx.issue("violation", f"{name}.{stage}:{exc_enum(e)}", f"{stage} raised {e!r} on data accepted by validate_data", desc)
+            continue
+        cov.hit(f"predargs:history:{name}:{plan}")
+        cov.hit(f"predargs:rewards:{rkind}")
+        # ---- queries
+        trained = np.unique(A[:, :da], axis=0)
+        kind = r.choice(["trained", "single", "unseen", "repeated"])
+        space = {"trained": trained, "single": trained[r.randrange(len(trained)):][:1],
+                 "unseen": gen.grid_rows(r, r.randint(2, 5), da, style="uniform"),
+                 "repeated": np.vstack([trained, trained[:1]])}[kind]
+        states = [("trained", S[r.randrange(n)]), ("unseen", gen.cc(gen.grid_rows(r, 1, ds, style="uniform"))[0])]
+        qseed = 1000 * ctx.seed + i
+        for sk, state in states:
+            for ak, asp in (("default", None), (kind, space)):
+                q = {"state": state.tolist(), "action_space": None if asp is None else asp.tolist(),
+                     "state_is": sk, "action_space_is": ak}
+                arg = (lambda: None if asp is None else asp.copy())
+                # candidate actions and their predicted rewards
+                try:
+                    with fq(), np.errstate(all="ignore"):
+                        cand, rew = est.get_actions_and_rewards(state.copy(), arg())
+                    if not _all_finite([cand, rew]):
+                        ctx.issue("violation", f"{name}.get_actions_and_rewards:non-finite", "non-finite candidate action / predicted reward",
+                                  dict(desc, query=q))
+                        continue
+                except Exception as e:
+                    ctx.issue("violation", f"{name}.get_actions_and_rewards:{exc_enum(e)}",
+                              f"get_actions_and_rewards raised {e!r} on a fitted model", dict(desc, query=q))
+                    continue
+                zero = float(np.sum(np.abs(np.asarray(rew, dtype=float)))) == 0.0
+                if zero:
+                    cov.hit("predargs:all-predicted-rewards-zero")
+                for opt in OPTIMALITIES:
+                    try:
+                        with fq(), np.errstate(all="ignore"):
+                            act = est.get_action(state.copy(), arg(), optimality=opt)
+                        if not _all_finite(act):
+                            ctx.issue("violation", f"{name}.get_action:non-finite", f"get_action(optimality={opt!r}) returned {act!r}",
+                                      dict(desc, query=dict(q, optimality=opt)))
+                        else:
+                            cov.hit(f"predargs:get_action:{opt}:{ak}-action-space:ok")
+                    except Exception as e:
+                        ctx.issue("violation", f"{name}.get_action:{exc_enum(e)}", f"get_action(optimality={opt!r}) raised {e!r} on a fitted model",
+                                  dict(desc, query=dict(q, optimality=opt)))
+                    for off in PROB_OFFSETS:
+                        qq = dict(q, offset=off, optimality=opt, before_the_query=f"np.random.seed({qseed})",
+                                  predicted_rewards_of_the_candidates=np.asarray(rew, dtype=float).reshape(-1).tolist())
+                        probs = []
+                        try:
+                            with fq(), np.errstate(all="ignore"), _sampled_query(qseed, probs):
+                                act = est.get_probabilistic_action(state.copy(), arg(), offset=off, optimality=opt)
+                            bad = None
+                            if not all(np.all(np.isfinite(p)) for p in probs):
+                                bad = ("non-finite-probabilities", f"sampled from the probabilities {[p.tolist() for p in probs]}")
+                            elif not _all_finite(act):
+                                bad = ("non-finite-action", f"returned {act!r}")
+                        except Exception as e:
+                            bad = (exc_enum(e), f"raised {e!r}" + (f" (probabilities {[p.tolist() for p in probs]})" if probs else ""))
+                        if bad is None:
+                            cov.hit(f"predargs:get_probabilistic_action:offset={off!r}:{opt}:ok")
+                            cov.hit(f"predargs:get_probabilistic_action:{ak}-action-space:{sk}-state:ok")
+                            continue
+                        if zero:
+                            # every candidate's predicted reward is exactly 0: told apart from the argument-dependent failures
+                            if name in zero_reported:
+                                continue
+                            zero_reported.add(name)
+                            sig = f"{name}.get_probabilistic_action:all-predicted-rewards-zero:{bad[0]}"
+                            what = (f"get_probabilistic_action(offset={off!r}, optimality={opt!r}) {bad[1]} on a fitted model when the predicted "
+                                    "reward of every candidate action is 0")
+                        else:
+                            sig = f"{name}.get_probabilistic_action[offset={off!r}]:{bad[0]}"
+                            what = f"get_probabilistic_action(offset={off!r}, optimality={opt!r}) {bad[1]} on a fitted model (legal arguments)"
+                        ctx.issue("violation", sig, what, dict(desc, query=qq))
+        k = min(n, 4)
+        try:
+            with fq(), np.errstate(all="ignore"):
+                out = est.get_rewards(S[:k].copy(), A[:k].copy())
+            if not _all_finite(out):
+                ctx.issue("violation", f"{name}.get_rewards:non-finite", f"get_rewards returned {np.asarray(out).tolist()}", desc)
+            else:
+                cov.hit("predargs:get_rewards:ok")
+        except Exception as e:
+            ctx.issue("violation", f"{name}.get_rewards:{exc_enum(e)}", f"get_rewards raised {e!r} on a fitted model", desc)
+        cov.hit(f"predargs:action-space:{kind}")
+        if boundary:
+            cov.hit("predargs:extreme-hyperparameters")
+        cov.case(("predargs", name, fam.spec, desc["S"], desc["A"], desc["R"], tuple(calls), kind), True)
+        if i < 2:
+            cov.sample({"family": name, "history": plan, "rewards": rkind, "explicit_action_space": kind, "offsets": PROB_OFFSETS})
+    # ---- FusionART: skip_channels / target_channels; ARTMAP: predict_regression / predict_ab
+    for i in range(ctx.scale(16, 240)):
+        r = gen.rng_for(ctx.seed, "C04-predargs-channels", i)
+        if i % 4 == 3:
+            fam, rows = families.build(r, "ARTMAP", r.randint(3, 10))
+            X, y = rows.arrs["X"], rows.arrs["y"]
+            desc = dict(fam.describe(), X=X.tolist(), y=y.tolist())
+            stage = "__init__"
+            try:
+                est = fam.make()
+                with fq(), np.errstate(all="ignore"):
+                    if fam.b_cls == "FuzzyART":     # documented workflow: prepare_data fixes the column bounds the centres need ([0,1] = identity)
+                        est.module_b.prepare_data(np.array([[0.0] * (y.shape[1] // 2), [1.0] * (y.shape[1] // 2)]))
+                    stage = "fit"
+                    if r.random() < 0.5:
+                        fam.fit(est, rows)
+                    else:
+                        stage, j = "partial_fit", 0
+                        for p in gen.compositions(r, len(X)):
+                            fam.pfit(est, rows.sl(j, j + p))
+                            j += p
+                    for entry in ("predict_regression", "predict_ab"):
+                        stage = entry
+                        out = getattr(est, entry)(X[: min(len(X), 4)])
+                        if not _all_finite(out):
+                            ctx.issue("violation", f"ARTMAP.{entry}:non-finite", f"{entry} returned a non-finite value", desc)
+                        else:
+                            cov.hit(f"predargs:ARTMAP.{entry}:ok")
+            except AssertionError as e:
+                if stage == "__init__":
+                    cov.hit("rejected-by-validate_params:ARTMAP")
+                else:
+                    ctx.issue("violation", f"ARTMAP.{stage}:{exc_enum(e)}", f"{stage} raised {e!r} on data accepted by validate_data", desc)
+            except Exception as e:
+                ctx.issue("violation", f"ARTMAP.{stage}:{exc_enum(e)}", f"{stage} raised {e!r} on data accepted by validate_data", desc)
+            cov.case(("predargs-artmap", fam.spec, desc["X"], desc["y"]), True)
+            continue
+        k = r.randint(2, 4)
+        ds_ = [r.randint(1, 2) for _ in range(k)]
+        spec = {"cls": "FusionART", "modules": [specs.elem_spec(r, "FuzzyART", d_) for d_ in ds_], "gamma_values": [1.0 / k] * k,
+                "channel_dims": [2 * d_ for d_ in ds_]}
+        n = r.randint(3, 10)
+        X = np.hstack([specs.elem_data(r, "FuzzyART", n, d_) for d_ in ds_])
+        desc = {"spec": spec, "X": X.tolist()}
+        stage = "fit"
+        try:
+            est = make(spec)
+            with fq(), np.errstate(all="ignore"):
+                for m_, d_ in zip(est.modules, ds_):       # documented workflow: prepare_data fixes the column bounds (identity here)
+                    m_.prepare_data(np.array([[0.0] * d_, [1.0] * d_]))
+                if r.random() < 0.5:
+                    est.fit(X)
+                else:
+                    stage, j = "partial_fit", 0
+                    for p in gen.compositions(r, n):
+                        est.partial_fit(X[j:j + p])
+                        j += p
+            targets = [[-1], [0], [k - 1], [-k]]
+            m = r.randint(1, k - 1)
+            chosen = r.sample(range(k), m)
+            targets.append([c - k if r.random() < 0.5 else c for c in chosen])       # several channels, mixed sign conventions
+            for tc in targets:
+                stage = f"predict(skip_channels={tc})"
+                with fq(), np.errstate(all="ignore"):
+                    est.predict(X[:3], skip_channels=list(tc))
+                stage = f"predict_regression(target_channels={tc})"
+                with fq(), np.errstate(all="ignore"):
+                    out = est.predict_regression(X[:3], target_channels=list(tc))
+                if not _all_finite(out):
+                    ctx.issue("violation", "FusionART.predict_regression:non-finite", f"{stage} on a model with {k} channels: non-finite output",
+                              dict(desc, target_channels=tc))
+                else:
+                    cov.hit("predargs:FusionART.predict_regression:" + ("several-targets" if len(tc) > 1 else "negative-index" if tc[0] < 0 else "non-negative-index") + ":ok")
+        except Exception as e:
+            ctx.issue("violation", f"FusionART.{stage.split('(')[0]}:channel-arguments:{exc_enum(e)}",
+                      f"{stage} raised {e!r} on a fitted model with {k} channels", desc)
+        cov.case(("predargs-fusion", spec, desc["X"]), True)
